@@ -24,6 +24,8 @@ or executed.  Small pure integer helpers (weekday arithmetic, interval overlap) 
   C15.carry       carry thresholds on hour / minute / second are the field maxima
   C15.alias       attribute stores in timex_range_resolver / timex_constraints_helper / timex_helpers go to objects made
                   in the same function (constructor, copy, clone), never to a parameter or an alias of one
+  C15.timeparts   Time.from_seconds(Time(h,m,s).get_time()) = (h,m,s) on a grid (object interpreter)
+  C15.owntime     resolve_by_time_constraints keeps a candidate's own time of day (object interpreter, single candidates)
   C15.dictkeys    no dict literal of the package repeats a constant key (Python keeps the last entry silently)
 """
 import ast
@@ -1503,6 +1505,111 @@ def rule_alias(cx, chk):
                 and {r for r, _, _ in mutation_sites(ctl)} == {'timex', 't'})
 
 
+# ---------------------------------------------------------------------------------------------------
+# tabulations with the shared object interpreter (sa/ointerp.py; stand-ins come from the C14 module)
+
+def _ointerp(cx, where):
+    from . import c14 as _c14
+    from .. import ointerp
+    return ointerp, _c14.make_ointerp(cx, where)
+
+
+def rule_timeparts(cx, chk):
+    """Time.from_seconds(Time(h, m, s).get_time()) gives h, m, s back, for every clock time of a grid"""
+    oi, it = _ointerp(cx, 'C15.timeparts')
+    tc = cx.cls('Time')
+    fs = cx.meth('Time', 'from_seconds')
+    bad = None
+    floats = set()
+    n = 0
+    for h in range(24):
+        for m in (0, 1, 29, 45, 59):
+            for sec in (0, 1, 30, 59):
+                n += 1
+                try:
+                    t = it.instantiate(tc, [h, m, sec], {}, None)
+                    ms = it.call_value(it.getattr(t, 'get_time', None, None), [], {}, None)
+                    r = it.call_function(oi.FuncRef(tc.mod, fs, tc), [ms], {}, None)
+                    got = tuple(it.getattr(r, p, None, None) for p in ('hour', 'minute', 'second'))
+                except oi.PyExc as ex:
+                    got = 'raises %s' % ex
+                ok = isinstance(got, tuple) and all(isinstance(x, (int, float)) and not isinstance(x, bool) for x in got) \
+                    and got == (h, m, sec)
+                if ok:
+                    floats |= {p for p, x in zip(('hour', 'minute', 'second'), got) if isinstance(x, float)}
+                if not ok and bad is None:
+                    bad = ((h, m, sec), got)
+    chk.judge(bad is None, 'C15.timeparts', tc.mod.path, 'Time.from_seconds(Time(h,m,s).get_time()) on %d clock times' % n,
+              '= (h, m, s)' if bad is None else '%s -> %s' % bad,
+              'Time.from_seconds(Time%s.get_time()) is %s: the time of day does not survive the conversion that '
+              'TimeRange.collapse_overlapping and the time-range resolver rely on' % (bad or ('', '')), fs.lineno)
+    if floats:
+        chk.observe('Time.from_seconds yields a float for %s (equal in value): TimexRangeResolver.resolve_timerage copies it into '
+                    'the result, whose timex_value() then prints e.g. T08:00:30.0' % ', '.join(sorted(floats)))
+
+
+def rule_owntime(cx, chk):
+    """resolve_by_time_constraints, run on single candidates: a candidate's own time of day is never replaced; a date
+    without a time takes the time of every time constraint; anything else is carried through"""
+    oi, it = _ointerp(cx, 'C15.owntime')
+    tcls = cx.cls('Timex')
+    rr = cx.cls('TimexRangeResolver')
+    fn = cx.meth('TimexRangeResolver', 'resolve_by_time_constraints')
+    consts = cx.cls('Constants')
+    tconst = {}
+    for nm in ('TIMEX_TYPES_DATE', 'TIMEX_TYPES_TIME'):
+        v = consts.attrs.get(nm)
+        if not isinstance(v, ast.Constant):
+            raise AnalysisError('anchor vanished: Constants.%s' % nm)
+        tconst[nm] = v.value
+
+    def timex(sv):
+        return it.instantiate(tcls, [sv], {}, None)
+
+    def value(o):
+        return it.call_value(it.getattr(o, 'timex_value', None, None), [], {}, None)
+
+    def types(o):
+        return list(it.iterate(it.getattr(o, 'types', None, None), None))
+
+    candidates = ['XXXX-WXX-3T04', 'XXXX-WXX-3T16:30', '2017-09-27T10:30:15', 'XXXX-09-27T23', 'T16', 'T00:30',
+                  'XXXX-WXX-3', '2017-09-27', 'XXXX-09-27', 'P3D', '2017-09']
+    constraint_sets = [['T12'], ['T12', 'T18:30'], ['(2017-09-27,2017-10-11,P14D)', 'T12'], ['2017-09', 'T08', 'T20:15:10']]
+    n = 0
+    for cand in candidates:
+        c0 = timex(cand)
+        tys = types(c0)
+        own = value(c0)
+        has_time = tconst['TIMEX_TYPES_TIME'] in tys
+        has_date = tconst['TIMEX_TYPES_DATE'] in tys
+        bad = None
+        for cs in constraint_sets:
+            cons = [timex(x) for x in cs]
+            times = [value(x) for x in cons if tconst['TIMEX_TYPES_TIME'] in types(x)]
+            if has_date and not has_time:
+                want = [own + t for t in times]
+            else:
+                want = [own]
+            try:
+                got = it.call_function(oi.FuncRef(rr.mod, fn, rr), [[cand], cons], {}, None)
+                got = list(it.iterate(got, None))
+            except oi.PyExc as ex:
+                got = 'raises %s' % ex
+            n += 1
+            if got != want and bad is None:
+                bad = (cs, got, want)
+        kind = 'has its own time' if has_time else 'date without time' if has_date else 'no date'
+        chk.judge(bad is None, 'C15.owntime', rr.mod.path,
+                  'TimexRangeResolver.resolve_by_time_constraints([%r], ...)' % cand,
+                  kind + (': kept' if has_time or not has_date else ': takes each constraint time') if bad is None
+                  else '%s with %s -> %s' % (kind, bad[0], bad[1]),
+                  'candidate %r (%s) with constraints %s resolves to %s, expected %s - %s'
+                  % ((cand, kind) + (bad or ('', '', '')) +
+                     ("a candidate's own time of day must never be replaced by a constraint's" if has_time else
+                      'only a date without a time takes the time of a time constraint',)), fn.lineno)
+    chk.extra['owntime_runs'] = n
+
+
 def small_ranges(n=5):
     pairs = [(s, e) for s in range(n) for e in range(n) if s < e]
     return list(itertools.product(pairs, pairs))
@@ -1679,6 +1786,10 @@ def run(chk):
                              'replaces the earlier one)', floor=3, control=True)
     chk.rule('C15.alias', 'attribute stores in the resolver modules go to objects made in the same function (constructor, '
                           'copy, clone), never to a parameter or to something reached from one', floor=20, control=True)
+    chk.rule('C15.timeparts', 'Time.from_seconds inverts Time.get_time on a grid of clock times (run on the syntax trees)',
+             floor=1)
+    chk.rule('C15.owntime', 'resolve_by_time_constraints, run on single candidates: own time kept, date without time takes '
+                            'each constraint time, the rest carried through', floor=8)
     chk.rule('C15.overlap', 'is_overlapping = interval overlap, collapse_overlapping = (max start, min end), both range '
                             'types, exhaustive over a small domain', floor=6)
     chk.rule('C15.remove', 'inner_collapse removes exactly one element per removal', floor=1, control=True)
@@ -1699,4 +1810,6 @@ def run(chk):
     rule_carry(cx, chk)
     rule_dictkeys(cx, chk)
     rule_alias(cx, chk)
+    rule_timeparts(cx, chk)
+    rule_owntime(cx, chk)
     chk.exhaustive = True
